@@ -47,7 +47,8 @@ where
             func,
             call_count,
             current_index: 0,
-            done: false,
+            // Nothing is owed to a chain of only oneway calls.
+            done: call_count == 0,
             _phantom: core::marker::PhantomData,
         }
     }
